@@ -28,26 +28,42 @@ import (
 //
 // Returns true if widths were successfully read.
 func getSimpleWidths(ww []float64, c pdf.Cursor, fontDict pdf.Dict, defaultWidth float64) bool {
+	ok, _ := getSimpleWidthsErr(ww, c, fontDict, defaultWidth)
+	return ok
+}
+
+// getSimpleWidthsErr is getSimpleWidths with read errors reported: malformed
+// entries are skipped as before, but a failure of the underlying reader is
+// returned instead of silently leaving the default widths in place.
+func getSimpleWidthsErr(ww []float64, c pdf.Cursor, fontDict pdf.Dict, defaultWidth float64) (bool, error) {
 	for i := range ww {
 		ww[i] = defaultWidth
 	}
 
-	firstChar, _ := c.Integer(fontDict["FirstChar"])
-	widths, _ := c.Array(fontDict["Widths"])
+	firstChar, err := c.Integer(fontDict["FirstChar"])
+	if pdf.IsReadError(err) {
+		return false, err
+	}
+	widths, err := c.Array(fontDict["Widths"])
+	if pdf.IsReadError(err) {
+		return false, err
+	}
 	if widths == nil || len(widths) > 256 || firstChar < 0 || firstChar >= 256 {
-		return false
+		return false, nil
 	}
 
 	for i, w := range widths {
 		w, err := c.Number(w)
-		if err != nil {
+		if pdf.IsReadError(err) {
+			return false, err
+		} else if err != nil {
 			continue
 		}
 		if code := firstChar + pdf.Integer(i); code < 256 {
 			ww[code] = w
 		}
 	}
-	return true
+	return true, nil
 }
 
 // decodeCompositeWidths reads glyph width information from a composite font's W array.
